@@ -334,7 +334,9 @@ func (s *sess) accept(st int, op Op, res opResult) (ok bool, next int, apply fun
 			}
 			return true, stClosed, nil, ""
 		case stRO:
-			return true, stRO | stClosed, nil, ""
+			// "after Finalize ... every lookup returns an error": also when the call itself reports that
+			// the store was finalized before (Finalize is FinalizeReadOnly followed by Close)
+			return true, stClosed, nil, ""
 		}
 		return true, stClosed, nil, ""
 	case "finalize_ro":
